@@ -3938,6 +3938,87 @@ def gen_fingerprints(repo):
     return json.dumps(fp, indent=1, sort_keys=True) + "\n"
 
 
+def trait_impl_listing(repo):
+    """{file: {"Trait for Type": [method names]}} for every `impl Trait for Type` block outside the test modules
+    (token based: comments and strings cannot confuse it)"""
+    res = {}
+    for root, _, files in os.walk(os.path.join(repo, "src")):
+        for f in sorted(files):
+            if not f.endswith(".rs"):
+                continue
+            path = os.path.join(root, f)
+            rel = os.path.relpath(path, repo)
+            toks = rp.tokenize(rp.strip_tests(open(path).read()))
+            i, n = 0, len(toks)
+            while i < n:
+                if toks[i] == ("id", "impl"):
+                    j = i + 1
+                    while j < n and toks[j] != ("op", "{") and toks[j] != ("op", ";"):
+                        j += 1
+                    header = [str(v) for _, v in toks[i + 1:j]]
+                    if j >= n or toks[j] == ("op", ";"):
+                        i = j + 1
+                        continue
+                    depth, k, names = 0, j, []
+                    while k < n:
+                        if toks[k] == ("op", "{"):
+                            depth += 1
+                        elif toks[k] == ("op", "}"):
+                            depth -= 1
+                            if depth == 0:
+                                break
+                        elif depth == 1 and toks[k] == ("id", "fn") and k + 1 < n and toks[k + 1][0] == "id":
+                            names.append(toks[k + 1][1])
+                        k += 1
+                    if "for" in header:
+                        h = " ".join(header)
+                        h = re.sub(r"\bwhere\b.*$", "", h).strip()
+                        if h.startswith("<"):                     # generic parameter list of the impl
+                            d, q = 0, 0
+                            for q, ch in enumerate(h.split(" ")):
+                                d += ch.count("<") - ch.count(">")
+                                if ch == "<<":
+                                    d += 1
+                                if ch == ">>":
+                                    d -= 1
+                                if d == 0:
+                                    break
+                            h = " ".join(h.split(" ")[q + 1:])
+                        h = re.sub(r"' [a-z_]+", "'_", h)
+                        res.setdefault(rel, {})[h] = sorted(names)
+                    i = k + 1
+                else:
+                    i += 1
+    return res
+
+
+def gen_traitimpls(repo):
+    """The models describe the methods a trait impl defines; the provided (default) methods of the trait are whatever
+    the trait declares (for `Iterator`: nth, count, last, fold, ... derived from `next`).  A method added to or removed
+    from a trait impl changes behaviour no regenerated function shows, so the set of methods of every trait impl is
+    compared with the one the models were written against (tools/trait_impls_baseline.json)."""
+    cur = trait_impl_listing(repo)
+    here = os.path.dirname(os.path.abspath(__file__))
+    base = json.load(open(os.path.join(here, "trait_impls_baseline.json")))
+    diffs = []
+    for f in sorted(set(cur) | set(base)):
+        a, b = base.get(f, {}), cur.get(f, {})
+        for h in sorted(set(a) | set(b)):
+            if h not in b:
+                diffs.append("%s: `impl %s` disappeared" % (f, h))
+            elif h not in a:
+                diffs.append("%s: new `impl %s` {%s}" % (f, h, ", ".join(b[h])))
+            elif a[h] != b[h]:
+                added = sorted(set(b[h]) - set(a[h]))
+                gone = sorted(set(a[h]) - set(b[h]))
+                diffs.append("%s: `impl %s`%s%s" % (f, h, " now also defines " + ", ".join(added) if added else "",
+                                                    " no longer defines " + ", ".join(gone) if gone else ""))
+    if diffs:
+        raise ParseError("trait impls differ from the modelled ones (an overridden provided method is not derived from the "
+                         "regenerated functions any more): " + "; ".join(diffs))
+    return json.dumps(cur, indent=1, sort_keys=True) + "\n"
+
+
 def write_if_changed(path, content):
     old = None
     if os.path.exists(path):
@@ -3954,12 +4035,13 @@ def main():
     repo = os.environ.get("VERIF_REPO", "/repo")
     here = os.path.dirname(os.path.dirname(os.path.abspath(__file__)))
     outdir = os.path.join(os.environ.get("VERIF_COQ_DIR") or os.path.join(here, "coq"), "gen")
-    which = sys.argv[1:] or ["broadword", "consts", "serial", "serialimpl", "methods", "loops", "fingerprints"]
+    which = sys.argv[1:] or ["broadword", "consts", "serial", "serialimpl", "methods", "loops", "traitimpls", "fingerprints"]
     status = 0
     gens = {"broadword": ("BroadwordGen.v", gen_broadword), "consts": ("ConstsGen.v", gen_consts),
             "serial": ("SerialGen.v", gen_serial), "serialimpl": ("SerialImplGen.v", gen_serialimpl),
             "methods": ("MethodsGen.v", gen_methods),
             "loops": ("LoopsGen.v", gen_loops),
+            "traitimpls": ("trait_impls.json", gen_traitimpls),
             "fingerprints": ("fingerprints.json", gen_fingerprints)}
     for w in which:
         fname, fn = gens[w]
